@@ -861,7 +861,7 @@ class TypeVariable(TypeInstance):
             assert self.lower
             raise SubtypeMismatch(self.lower, new)
         # if A <= x <= A, immediately bind x to A
-        if self.lower and self.lower == self.upper:
+        if not self.bound and self.lower and self.lower == self.upper:
             self.bind(self.lower())
 
     def below(self, new: TypeOperator) -> None:
@@ -887,7 +887,7 @@ class TypeVariable(TypeInstance):
         else:
             assert self.upper
             raise SubtypeMismatch(new, self.upper)
-        if self.upper and self.upper == self.lower:
+        if not self.bound and self.upper and self.upper == self.lower:
             self.bind(self.upper())
 
 
